@@ -421,7 +421,7 @@ func c20Exec(dir, cacheDir string, run c20Run, cross bool) c20Output {
 	args = append(args, "-f", "json", "./...")
 	cmd := exec.Command(os.Args[0], args...)
 	cmd.Dir = dir
-	env := append(c20GoEnv(), "VERIF_C20_CHILD=1", "STATICCHECK_CACHE="+cacheDir, "GOWORK=off")
+	env := append(c20GoEnv(), "VERIF_C20_CHILD=1", "STATICCHECK_CACHE="+cacheDir, "GOWORK=off", "GOMAXPROCS=2")
 	if cross {
 		env = append(env, "VERIF_C20_CROSS=1")
 	}
@@ -456,6 +456,10 @@ func c20Exec(dir, cacheDir string, run c20Run, cross bool) c20Output {
 		}
 		out.diags = append(out.diags, d)
 	}
+	if len(out.diags) == 0 {
+		// the control probe has no bound: no output at all means nothing was analyzed (go list failed, ...)
+		out.infra = fmt.Sprintf("no diagnostics at all (exit %d): %s", out.exit, c20Trunc(out.stderr, 600))
+	}
 	return out
 }
 
@@ -487,6 +491,41 @@ type c20Stats struct {
 	mu                                                  sync.Mutex
 	points, decided, unasserted, expReported, expAbsent int64
 	runs, unassertedPatch                               int64
+	pending                                             []c20Vio
+}
+
+// c20Vio: violations are collected and handed to vx in a fixed smallest-first order (run index of the
+// grid, one-file package before multi-file package, tag, probe family), so that the ones that are
+// kept and printed do not depend on goroutine scheduling.
+type c20Vio struct {
+	order    [5]int
+	key, msg string
+	c        any
+}
+
+func (st *c20Stats) violate(order [5]int, key, msg string, c any) {
+	st.mu.Lock()
+	st.pending = append(st.pending, c20Vio{order, key, msg, c})
+	st.mu.Unlock()
+}
+
+func (st *c20Stats) flush(res *vx.Result) {
+	sort.SliceStable(st.pending, func(i, j int) bool {
+		a, b := st.pending[i].order, st.pending[j].order
+		for k := range a {
+			if a[k] != b[k] {
+				return a[k] < b[k]
+			}
+		}
+		return st.pending[i].key < st.pending[j].key
+	})
+	for _, v := range st.pending {
+		res.Violate(v.key, v.msg, v.c)
+	}
+	if len(st.pending) > 0 {
+		res.Count("violating_point_families", int64(len(st.pending)))
+	}
+	st.pending = nil
 }
 
 func c20PointOfFile(run c20Run, file string) (c20Point, bool) {
@@ -517,7 +556,11 @@ func c20PointOfFile(run c20Run, file string) (c20Point, bool) {
 }
 
 // c20Evaluate runs the command once and decides every probe of every (or one) grid point.
-func c20Evaluate(res *vx.Result, st *c20Stats, dir, cacheDir string, run c20Run, cross bool, only *c20Point, warm string) {
+func c20Evaluate(res *vx.Result, st *c20Stats, idx int, dir, cacheDir string, run c20Run, cross bool, only *c20Point, warm string) {
+	warmRank := 0
+	if warm != "" {
+		warmRank = 1
+	}
 	modV, ok := c20Parse(run.Mod)
 	if !ok {
 		res.Note("generator bug: module version %q", run.Mod)
@@ -542,7 +585,7 @@ func c20Evaluate(res *vx.Result, st *c20Stats, dir, cacheDir string, run c20Run,
 		return
 	}
 	if out.crashed {
-		res.Violate(runKey+",crash", fmt.Sprintf("the command crashed in module go %s with -go %q:\n%s", run.Mod, run.Go, c20Trunc(out.stderr, 1500)),
+		st.violate([5]int{warmRank, idx}, runKey+",crash", fmt.Sprintf("the command crashed in module go %s with -go %q:\n%s", run.Mod, run.Go, c20Trunc(out.stderr, 1500)),
 			map[string]any{"run": run})
 		return
 	}
@@ -571,7 +614,7 @@ func c20Evaluate(res *vx.Result, st *c20Stats, dir, cacheDir string, run c20Run,
 		}
 	}
 	probes := c20Probes(cross)
-	for _, layout := range []string{"all", "single"} {
+	for layoutRank, layout := range []string{"single", "all"} {
 		for _, tag := range c20Tags() {
 			pt := c20Point{c20Run: run, Tag: tag, Layout: layout}
 			if only != nil && (only.Tag != tag || only.Layout != layout) {
@@ -631,7 +674,7 @@ func c20Evaluate(res *vx.Result, st *c20Stats, dir, cacheDir string, run c20Run,
 				w4 := c20Verdict(p, r2, std, false)
 				if w1 != w2 || w3 != w4 {
 					unasserted++
-					if got[pt][p.msg()] == w1 { // observation only
+					if g := got[pt][p.msg()]; g == w1 || g == w3 { // observation only
 						res.Count("unasserted_readings_differ_real_command_agrees_with_go_types", 1)
 					} else {
 						res.Count("unasserted_readings_differ_real_command_agrees_with_go1.21_rule", 1)
@@ -697,7 +740,7 @@ func c20Evaluate(res *vx.Result, st *c20Stats, dir, cacheDir string, run c20Run,
 			st.expReported += expRep
 			st.expAbsent += expAbs
 			st.mu.Unlock()
-			for _, fam := range famOrder {
+			for famRank, fam := range famOrder {
 				bs := wrong[fam]
 				first := bs[0]
 				verb := map[bool]string{true: "missing", false: "spurious"}
@@ -717,7 +760,7 @@ func c20Evaluate(res *vx.Result, st *c20Stats, dir, cacheDir string, run c20Run,
 				if warm != "" {
 					msg += " This run used a staticcheck cache previously filled by runs with -go " + warm + " on the same module."
 				}
-				res.Violate(key, msg, map[string]any{"point": pt, "cross": cross, "warm": warm})
+				st.violate([5]int{warmRank, idx, layoutRank, tag, famRank}, key, msg, map[string]any{"point": pt, "cross": cross, "warm": warm})
 			}
 		}
 	}
@@ -746,8 +789,8 @@ func c20WarmSequence(res *vx.Result, st *c20Stats, modRoot, cacheDir string, cro
 	}
 	seq := vx.Pick([]string{"1.18", "1.26", ""}, []string{"1.18", "1.26", "", "1.21", "1.18", "module", "1.24"})
 	var before []string
-	for _, g := range seq {
-		c20Evaluate(res, st, dir, cacheDir, c20Run{Mod: mod, Go: g}, cross, nil, strings.Join(before, ">"))
+	for i, g := range seq {
+		c20Evaluate(res, st, 1000000+i, dir, cacheDir, c20Run{Mod: mod, Go: g}, cross, nil, strings.Join(before, ">"))
 		if g == "" {
 			g = "unset"
 		}
@@ -765,8 +808,8 @@ func c20OtherText(other []string) string {
 
 // ---------------------------------------------------------------------------------------------
 
-// c20Grid returns the runs of the tier in a fixed order (-go outermost, so that neighbouring runs
-// of one module differ in -go and share the staticcheck cache directory).
+// c20Grid returns the runs of the tier in a fixed order (the index is the shard key and the name of
+// the run's private staticcheck cache directory).
 func c20Grid() (runs []c20Run, cross bool, desc string) {
 	var mods, gos []string
 	var extra []c20Run
@@ -814,6 +857,7 @@ func TestVerifC20(t *testing.T) {
 	cacheDir := filepath.Join(scratch, "sccache")
 	os.MkdirAll(cacheDir, 0o755)
 	finish := func() {
+		st.flush(res)
 		res.States = st.points
 		res.Transitions = st.decided
 		res.Validated = st.decided
@@ -866,7 +910,7 @@ func TestVerifC20(t *testing.T) {
 				c20Exec(dir, cacheDir, c20Run{Mod: run.Mod, Go: g}, c.Cross)
 			}
 		}
-		c20Evaluate(res, st, dir, cacheDir, run, c.Cross, c.Point, c.Warm)
+		c20Evaluate(res, st, 0, dir, cacheDir, run, c.Cross, c.Point, c.Warm)
 		finish()
 		return
 	}
@@ -899,7 +943,9 @@ func TestVerifC20(t *testing.T) {
 			defer wg.Done()
 			for j := range ch {
 				// every grid run starts from its own empty staticcheck cache: what it reports is computed, not recalled
-				if msg := vx.Catch(func() { c20Evaluate(res, st, j.dir, filepath.Join(cacheDir, fmt.Sprint(j.id)), j.run, cross, nil, "") }); msg != "" {
+				if msg := vx.Catch(func() {
+					c20Evaluate(res, st, j.id, j.dir, filepath.Join(cacheDir, fmt.Sprint(j.id)), j.run, cross, nil, "")
+				}); msg != "" {
 					res.Note("harness panic in run %+v: %s", j.run, msg)
 					res.NotExhaustive("harness panic")
 				}
@@ -922,5 +968,4 @@ func TestVerifC20(t *testing.T) {
 	close(ch)
 	wg.Wait()
 	finish()
-
 }
